@@ -262,3 +262,44 @@ Lemma pg_udt_type_changed_noscope c c' :
 Proof.
   intros K K'. unfold pg_type_changed_ns. rewrite K, K'. simpl. rewrite andb_true_r. reflexivity.
 Qed.
+
+(** ** numeric defaults (round 4) *)
+
+(** two literals strconv.ParseInt accepts are compared exactly, whatever the float projections say *)
+Lemma equal_int_values_exact x1 x2 f1 t1 f2 t2 v1 v2 :
+  parse_int64 (to_lower (trim quote_space x1)) = Some v1 ->
+  parse_int64 (to_lower (trim quote_space x2)) = Some v2 ->
+  equal_int_values x1 x2 f1 t1 f2 t2 =
+  str_eqb (to_lower (trim quote_space x1)) (to_lower (trim quote_space x2))
+  || (Bool.eqb (fst v1) (fst v2) && N.eqb (snd v1) (snd v2)).
+Proof.
+  intros P1 P2. unfold equal_int_values, int_of_default. rewrite P1, P2.
+  destruct (str_eqb _ _); [reflexivity|]. destruct v1, v2. reflexivity.
+Qed.
+
+(** floats / decimals: equal texts, or two float64 values that are equal *)
+Lemma equal_float_values_spec x1 x2 f1 f2 :
+  f1 <> [] -> f2 <> [] ->
+  equal_float_values x1 x2 f1 f2 =
+  str_eqb (to_lower (trim quote_space x1)) (to_lower (trim quote_space x2)) || str_eqb f1 f2.
+Proof.
+  intros N1 N2. unfold equal_float_values. destruct (str_eqb _ _); [reflexivity|].
+  destruct f1; [contradiction|]. destruct f2; [contradiction|]. reflexivity.
+Qed.
+
+(** bigint unsigned: 18446744073709551615 and 18446744073709551614 are out of ParseInt's range; both
+    are read as the float 1.8446744073709552e+19 and int64 of it (projections as the Go runtime gives them) *)
+Definition w_u64_a : str := [49;56;52;52;54;55;52;52;48;55;51;55;48;57;53;53;49;54;49;53]%N.
+Definition w_u64_b : str := [49;56;52;52;54;55;52;52;48;55;51;55;48;57;53;53;49;54;49;52]%N.
+Definition w_u64_f : str := [49;46;56;52;52;54;55;52;52;48;55;51;55;48;57;53;53;50;101;43;49;57]%N.
+Definition w_u64_t : str := [45;57;50;50;51;51;55;50;48;51;54;56;53;52;55;55;53;56;48;56]%N.
+Lemma w_u64_equal : equal_int_values w_u64_a w_u64_b w_u64_f w_u64_t w_u64_f w_u64_t = true.
+Proof. vm_compute. reflexivity. Qed.
+
+(** decimal(60,25): 1.0000000000000001 and 1.0 are both the float64 1 *)
+Definition w_dec_col (d : str) : column :=
+  mkColumn [100]%N MY_DECIMAL ([100;101;99;105;109;97;108;40;54;48;44;50;53;41]%N ++ [US;US;US;US;US] ++ [49]%N ++ [US] ++ [49]%N) true (Some (DLit d)) None None.
+Definition w_dec_a : str := [49;46;48;48;48;48;48;48;48;48;48;48;48;48;48;48;48;49]%N.
+Definition w_dec_b : str := [49;46;48]%N.
+Lemma w_dec_unreported t : mysql_column_change t (w_dec_col w_dec_a) (w_dec_col w_dec_b) = Some 0%N.
+Proof. vm_compute. reflexivity. Qed.
